@@ -229,6 +229,10 @@ def gen_cases(rng, tier):
         yield {'op': rng.choice(['search', 'sub']), 'i': i, 'j': j, 's': subj, 'secret': rng.choice(MASKS)}
     for _ in range(500 * scale):
         if rng.random() < 0.5: m = fuzz_msg(rng)
+        elif rng.random() < 0.3:
+            k = rng.choice(['admin_password', 'auth_password', 'chappassword', 'chapsecret', 'password', 'auth_token'])
+            m = rng.choice(['', 'x ']) + '--' + casing(rng, k, rng.randrange(4)) + rng.choice(['', '1']) + rng.choice([' ', '  ', '\t']) + \
+                rng.choice(['-', '--']) + rng.choice(['a', 'ab', 'Z_', 'a1', '']) + rng.choice([' ', '', '\n']) + rng.choice(['next', '', "'q'"])
         else:
             m = case_msg(mk_case(rng, [rendering(rng, rng.choice(['json_dq', 'json_sq', 'json_u', 'json_pre', 'cmd1', 'eq_dq']), rng.choice(SPEC_KEYS), lambda kind: draw_value(rng, kind))
                                         for _ in range(rng.choice([1, 2, 2]))]))
@@ -255,7 +259,7 @@ def impl(c):
         try: return su.mask_password(case_msg(c), c['secret'])
         except Exception as e: return 'EXN:' + type(e).__name__
     if op == 'zone':
-        return str(zone_K12(c['msg']))
+        return 'K12:%s K14:%s' % (zone_K12(c['msg']), zone_K14(c['msg']))
     rx = _pattern(su, c['i'], c['j'])
     if rx is None: return 'NOPATTERN'
     if op == 'search':
